@@ -818,6 +818,9 @@ func (e *Env) callSpec(t ECall) Val {
 	case "allocated": // reference existed at function entry
 		v := e.eval(t.Args[0])
 		return mathBool(fmt.Sprintf("(< %s %s)", refTerm(v), e.old.alloc))
+	case "live": // reference is an allocated object in the current state (below the allocation counter)
+		v := e.eval(t.Args[0])
+		return mathBool(fmt.Sprintf("(< %s %s)", refTerm(v), e.st.alloc))
 	case "fresh": // reference allocated during the call
 		v := e.eval(t.Args[0])
 		return mathBool(fmt.Sprintf("(>= %s %s)", refTerm(v), e.old.alloc))
